@@ -71,9 +71,9 @@ CHECKS["C15"] = {
 }
 
 CHECKS["C02"] = {
-    "text": "Proof (Verus) on the real code of texmacro.rs and stdext's substring search: Parameter::should_trim_outer_braces_if_present returns true iff the whole argument is a single group for every token list; parse_delimited_argument consumes exactly the shortest prefix that ends with the delimiter at brace depth 0 (KMP matcher contract: reports a match iff the delimiter ends here) for every token sequence and delimiter, with the scan index arithmetic overflow-free; parse_undelimited_argument == next non-blank token or the contents of the next group (SpacesUnexpanded and finish_parsing_balanced_tokens proved against a brace-depth spec); remove_tokens_from_stream == TeX's prefix match (mismatch: one error, offending token consumed); perform_replacement pushes exactly the replacement text with every #i replaced by argument i, in order; def.rs parse_prefix_and_parameters == TeX 474-476 for every token sequence (prefix, delimiters per parameter, the trailing #{ whose brace is both delimiter and end of the parameter text, at most nine parameters, the two error recoveries); Matcher::new/Search::next are proved against the prefix function. Plus a bounded stand-in (not proof): 4576 generated definitions and calls run in the real VM against an executable transcription of TeX's macro_call.",
+    "text": "Proof (Verus) on the real code of texmacro.rs and stdext's substring search: Parameter::should_trim_outer_braces_if_present returns true iff the whole argument is a single group for every token list; parse_delimited_argument consumes exactly the shortest prefix that ends with the delimiter at brace depth 0 (KMP matcher contract: reports a match iff the delimiter ends here) for every token sequence and delimiter, with the scan index arithmetic overflow-free; parse_undelimited_argument == next non-blank token or the contents of the next group (SpacesUnexpanded and finish_parsing_balanced_tokens proved against a brace-depth spec); remove_tokens_from_stream == TeX's prefix match (mismatch: one error, offending token consumed); perform_replacement pushes exactly the replacement text with every #i replaced by argument i, in order; def.rs parse_prefix_and_parameters == TeX 474-476 for every token sequence (prefix, delimiters per parameter, the trailing #{ whose brace is both delimiter and end of the parameter text, at most nine parameters, the two error recoveries); def.rs parse_replacement_text == TeX 477-479 for every token sequence (## yields one #, #k stored as parameter k-1 only when k <= number of parameters, otherwise one error with the # kept and the token read again, brace nesting, the brace of a trailing #{ appended, the closing brace consumed and not stored); Matcher::new/Search::next are proved against the prefix function. Plus a bounded stand-in (not proof): 4576 generated definitions and calls run in the real VM against an executable transcription of TeX's macro_call.",
     "design_ref": "DESIGN.md §5 C02",
-    "note": "Macro::call's own loop (argument index bookkeeping, token buffer) and the \\def replacement-text parser are covered by the bounded driver only (labelled bounded in evidence). Trusted: Vec::extend over a borrowed vector / a reversed copied slice iterator (rule R18), the unexpanded-stream model.",
+    "note": "Macro::call's own loop (argument index bookkeeping, token buffer) and the \\def primitive's glue around the two parsers (reversing each token run, building the Matcher) are covered by the bounded driver only (labelled bounded in evidence). Trusted: Vec::extend over a borrowed vector / a reversed copied slice iterator (rule R18), Vec::last_mut (rule R23), the unexpanded-stream model. parse_replacement_text's non-capturing local closure is hoisted to a function (rule R22, body verbatim) and Option::filter is desugared to a match (rule R24).",
     "technique": "contract-based deductive verification (Verus loop invariant over a brace-depth spec) + bounded contract check where the verifier does not reach",
 }
 CHECKS["C09"] = {
